@@ -163,7 +163,7 @@ class BasicDBusProtocol(protocol.Protocol):
 
             lines = (self._buffer + data).split(self.authDelimiter)
             self._buffer = lines.pop(-1)
-            for line in lines:
+            for i, line in enumerate(lines):
                 if self.transport.disconnecting:
                     # this is necessary because the transport may be
                     # told to lose the connection by a line within a
@@ -180,8 +180,14 @@ class BasicDBusProtocol(protocol.Protocol):
                             self.guid = self._dbusAuth.getGUID()
                             self._dbusAuth = None
                             self.setAuthenticationSucceeded()
+                            # Everything after the line that completed the
+                            # authentication is binary message data, even
+                            # where it happens to contain the delimiter
+                            lines = lines[i + 1:] + [self._buffer]
+                            self._buffer = self.authDelimiter.join(lines)
                             if self._buffer:
                                 self.dataReceived(b'')
+                            return
                     except error.DBusAuthenticationFailed as e:
                         log.msg('DBus Authentication failed: ' + str(e))
                         self.transport.loseConnection()
